@@ -481,3 +481,54 @@ func init() {
 	register(&Scenario{Prop: "C05", Name: "c05/one-connection-does-not-read", Quick: []Bound{{0, 0}}, Thorough: []Bound{{1, 0}}, Body: c05BlockedWriter, MaxSteps: 2000000, BudgetQ: 20, BudgetT: 150, MinHB: 1})
 	register(&Scenario{Prop: "C05", Name: "c05/empty-replies", Quick: []Bound{{1, 0}, {2, 0}}, Thorough: []Bound{{3, 0}}, Body: c05EmptyReplies, BudgetQ: 20})
 }
+
+// several pipelined Go calls share ONE Done channel that is smaller than the number of calls
+// (capacity 1 or 2): whatever is delivered on it arrives in issue order (completions that find the
+// channel full may be dropped, as in net/rpc, but never overtake).  The first handler is held, so
+// that the responses arrive in a burst; the collector takes one completion at a time.
+func c05SmallDone(x *X) {
+	capa := 1 + x.Choose(2)
+	cliDio := x.Choose(2) == 1
+	n := 4
+	f := newFixture(srvOpts{bufSize: 64, pipelining: true}, cliOpts{bufSize: 64, pipelining: true, directIO: cliDio})
+	done := make(chan *rpc.Call, capa)
+	var tags []byte
+	for i := 0; i < n; i++ {
+		tag := byte(0x21 + i)
+		fl := byte(0)
+		if i == 0 {
+			fl = fGate
+		}
+		args := mkPayload(tag, fl, []int{40, 90, 3, 64}[i])
+		var reply []byte
+		f.conn.Go("Svc.Echo", &args, &reply, done)
+		tags = append(tags, tag)
+	}
+	vs.Quiesce()
+	f.w.open(0x21)
+	vs.Quiesce()
+	var order []byte
+	for round := 0; round < 2*n && len(done) > 0; round++ {
+		call := <-done
+		order = append(order, (*call.Args.(*[]byte))[0])
+		vs.Quiesce()
+	}
+	last := byte(0)
+	for _, t := range order {
+		if t <= last {
+			x.Fail("C05/completion-order/small-done-channel", "pipelined calls issued in order %v on one Done channel of capacity %d were delivered in order %v", tags, capa, order)
+			break
+		}
+		last = t
+	}
+	if len(order) == 0 {
+		x.Fail("C05/incomplete/small-done-channel", "no completion at all was delivered on the shared Done channel")
+	}
+	x.Outcome("cap=%d dio=%v delivered=%v", capa, cliDio, order)
+	f.conn.Close()
+	vs.Quiesce()
+}
+
+func init() {
+	register(&Scenario{Prop: "C05", Name: "c05/small-done-channel", Quick: []Bound{{1, 0}}, Thorough: []Bound{{3, 0}}, Body: c05SmallDone, BudgetQ: 15})
+}
